@@ -4,7 +4,7 @@
    `translated_io` lists what the translator could handle on this run; for a method that is not in it the statement is
    empty and the tie is the correspondence check alone (the harness reports which).  Statements only. *)
 From Coq Require Import ZArith List String.
-From PyUbx Require Import Base Bytes Reader Strs PyMini PySrcIO Src_common Src_reader.
+From PyUbx Require Import Base Bytes Reader Strs Consts PyMini PySrcIO Src_common ReaderTie.
 Import ListNotations.
 Open Scope Z_scope.
 
@@ -60,7 +60,25 @@ Theorem C06_do_error_from_source : mem_s "py_io_do_error" translated_io = true -
   else if (quitonerror c =? 1)%N then (Ok gnone, log_effect has_handler e w)
   else (Ok gnone, w).
 Proof. exact (@do_error_io S c has_handler). Qed.
+
+(* read() as the source has it now - the `while parsing:` loop, the try statement with its two handlers, the protocol
+   dispatch on the two header bytes, the protocol filter - against the model: for every stream that never returns more
+   than it is asked for, every configuration and starting state, what one call returns (the raw frame and what its
+   parser answered / (None, None) / an exception), where it leaves the stream and what it reports to the logger or the
+   error handler are what iterating the model's `step` gives (`read_one`); `fuel` bounds the iterations on both sides *)
+Theorem C06_read_from_source (nmea_hdr : N -> bool) :
+  mem_s "py_io_read_bytes" translated_io = true -> mem_s "py_io_read_line" translated_io = true ->
+  mem_s "py_io_parse_ubx" translated_io = true -> mem_s "py_io_parse_nmea" translated_io = true ->
+  mem_s "py_io_parse_rtcm3" translated_io = true -> mem_s "py_io_do_error" translated_io = true ->
+  mem_s "py_ioread" translated_io = true ->
+  (forall n s, (length (fst (rd n s)) <= n)%nat) ->
+  (forall x, nmea_hdr x = existsb (N.eqb x) nmea_hdr2) ->
+  forall fuel (w : world S),
+  read_ok parse has_handler w (py_ioread rd rdl (attr c has_handler) (ext parse) (Datatypes.S fuel) w)
+          (read_one rd rdl parse nmea_hdr c fuel (w_stream w) []).
+Proof. intros. eapply read_agree; eassumption. Qed.
 End S.
+Print Assumptions C06_read_from_source.
 Print Assumptions C06_read_bytes_from_source.
 Print Assumptions C06_read_line_from_source.
 Print Assumptions C06_parse_ubx_from_source.
